@@ -287,3 +287,104 @@ Proof.
   induction cs as [|c cs IH]; intros pr; cbn [apply_cmds]; [reflexivity|].
   destruct (p_panic pr); [reflexivity|]. rewrite IH. apply g3_apply_cmd.
 Qed.
+
+(* ---------- flush ---------------------------------------------------------------------------- *)
+
+Definition flush_step (pr : peer_state) (s : sysid) : peer_state :=
+  let k := sys_key s in
+  match p_cmdq pr !! k with
+  | Some cs => apply_cmds (pr <| p_cmdq := delete k (p_cmdq pr) |>) cs
+  | None => pr
+  end.
+
+Lemma flush_unfold pr : flush pr = foldl flush_step pr (p_order pr).
+Proof. reflexivity. Qed.
+
+Definition cf (pr : peer_state) := (c1 pr, p_finished_events pr).
+
+Lemma g3_cf a b : g3 a = g3 b -> cf a = cf b /\ p_cmdq a = p_cmdq b.
+Proof. intros H. split; [exact (f_equal fst H) | exact (f_equal snd H)]. Qed.
+
+Lemma cf_flush_step pr s : cf (flush_step pr s) = cf pr.
+Proof.
+  unfold flush_step. cbv zeta. destruct (p_cmdq pr !! sys_key s) as [cs|]; [|reflexivity].
+  destruct (g3_cf _ _ (g3_apply_cmds cs (pr <| p_cmdq := delete (sys_key s) (p_cmdq pr) |>))) as [H _].
+  rewrite H. reflexivity.
+Qed.
+
+Lemma cf_flush_steps l : forall pr, cf (foldl flush_step pr l) = cf pr.
+Proof. apply foldl_pres. intros. apply cf_flush_step. Qed.
+
+Lemma cf_flush pr : cf (flush pr) = cf pr.
+Proof. rewrite flush_unfold. apply cf_flush_steps. Qed.
+
+Lemma cmdq_flush_step pr s :
+  p_cmdq (flush_step pr s) = delete (sys_key s) (p_cmdq pr).
+Proof.
+  unfold flush_step. cbv zeta. destruct (p_cmdq pr !! sys_key s) as [cs|] eqn:E.
+  - destruct (g3_cf _ _ (g3_apply_cmds cs (pr <| p_cmdq := delete (sys_key s) (p_cmdq pr) |>))) as [_ H].
+    rewrite H. reflexivity.
+  - symmetry. apply delete_notin. exact E.
+Qed.
+
+Lemma cmdq_flush_steps_none l k : forall pr,
+  p_cmdq pr !! k = None -> p_cmdq (foldl flush_step pr l) !! k = None.
+Proof.
+  induction l as [|s l IH]; intros pr H; cbn [foldl]; [exact H|].
+  apply IH. rewrite cmdq_flush_step.
+  destruct (decide (sys_key s = k)) as [->|Hne];
+    [apply lookup_delete | rewrite lookup_delete_ne by exact Hne; exact H].
+Qed.
+
+Lemma cmdq_flush_steps_in l s : forall pr,
+  s ∈ l -> p_cmdq (foldl flush_step pr l) !! sys_key s = None.
+Proof.
+  induction l as [|s' l IH]; intros pr Hin; [inversion Hin|].
+  cbn [foldl]. apply elem_of_cons in Hin as [->|Hin].
+  - apply cmdq_flush_steps_none. rewrite cmdq_flush_step. apply lookup_delete.
+  - apply IH. exact Hin.
+Qed.
+
+(* ---------- one system body ------------------------------------------------------------------ *)
+
+(* what remains of a system run when its body is neutral: one tick, one last-run entry *)
+Definition tickonly (pr : peer_state) (k : N) : peer_state :=
+  end_run (pr <| p_tick := p_tick pr + 1 |>) k (p_tick pr).
+
+Ltac rw_all := repeat match goal with E : _ = _ |- _ => try rewrite E; clear E end; reflexivity.
+
+Lemma Q_end_run k t a b : g1k k a = g1k k b -> g1k k (end_run a k t) = g1k k (end_run b k t).
+Proof.
+  unfold Q, G1, g0, c1, tv, end_run. cbn. intros H.
+  injection H; clear H; intros. rw_all.
+Qed.
+
+Lemma Q2_end_run k t a b : g2k k a = g2k k b -> g2k k (end_run a k t) = g2k k (end_run b k t).
+Proof.
+  unfold Q2, Q, G2, G1, g0, c1, tv, end_run. cbn. intros H.
+  injection H; clear H; intros. rw_all.
+Qed.
+
+(* systems whose body writes none of the session fields *)
+Definition neutral_sys (s : sysid) : bool :=
+  match s with
+  | SSrvConnected | SSrvDisconnected | SCliConnecting | SCliVerify | SCliDisconnected
+  | SCliPoll | SSync => false
+  | _ => true
+  end.
+
+Lemma run_body_neutral pr s o :
+  neutral_sys s = true ->
+  g1k (sys_key s) (run_body pr s o) = g1k (sys_key s) (tickonly pr (sys_key s)).
+Proof.
+  intros Hs. unfold run_body, tickonly, begin_run. cbv zeta. apply Q_end_run.
+  destruct s; try discriminate Hs; proj_solve.
+Qed.
+
+Lemma run_body_clipoll pr o :
+  g2k (sys_key SCliPoll) (run_body pr SCliPoll o) = g2k (sys_key SCliPoll) (tickonly pr (sys_key SCliPoll)).
+Proof.
+  unfold run_body, tickonly, begin_run. cbv zeta. apply Q2_end_run.
+  destruct (n_cli_transport _) as [[h t]|]; [|reflexivity].
+  apply g2k_client_poll.
+Qed.
